@@ -2,12 +2,15 @@
 use super::*;
 use crate::parser::ParseStatus;
 
+static mut DRIVER_CALLS: u8 = 0;
+
 /// abstract per-element driver: any of {element, end, error}
 fn model_array_elem<'de, R: Reader<'de>>(
     p: &mut Parser<R>,
     first: &mut bool,
     _check: bool,
 ) -> Result<Option<(&'de [u8], ParseStatus)>> {
+    unsafe { DRIVER_CALLS = DRIVER_CALLS.wrapping_add(1) };
     *first = false;
     let k: u8 = kani::any();
     if k == 0 {
@@ -29,6 +32,7 @@ fn model_entry<'de, R: Reader<'de>>(
     first: &mut bool,
     _check: bool,
 ) -> Result<Option<Pair<'de>>> {
+    unsafe { DRIVER_CALLS = DRIVER_CALLS.wrapping_add(1) };
     *first = false;
     let k: u8 = kani::any();
     if k == 0 {
@@ -63,8 +67,21 @@ fn m_array_iter_latch() {
         ending: kani::any(),
         skip_strict: kani::any(),
     };
+    // anywhere in the input, including its very end: whether more input is left is the driver's
+    // business (it reports EOF), not a reason for the iterator to end quietly
+    let pos: usize = kani::any();
+    kani::assume(pos <= data.len());
+    it.parser.read.set_index(pos);
+    unsafe { DRIVER_CALLS = 0 };
     let was_ending = it.ending;
+    let was_first = it.first;
     let a = it.next_elem_impl();
+    if !was_ending && !(bad_utf8 && was_first) {
+        assert_eq!(unsafe { DRIVER_CALLS }, 1);
+    } else {
+        assert_eq!(unsafe { DRIVER_CALLS }, 0);
+    }
+    kani::cover!(pos == data.len() && !was_ending && !bad_utf8);
     let terminal = match &a {
         None => true,
         Some(Err(_)) => true,
@@ -102,8 +119,21 @@ fn m_object_iter_latch() {
         ending: kani::any(),
         skip_strict: kani::any(),
     };
+    // anywhere in the input, including its very end: whether more input is left is the driver's
+    // business (it reports EOF), not a reason for the iterator to end quietly
+    let pos: usize = kani::any();
+    kani::assume(pos <= data.len());
+    it.parser.read.set_index(pos);
+    unsafe { DRIVER_CALLS = 0 };
     let was_ending = it.ending;
+    let was_first = it.first;
     let a = it.next_entry_impl();
+    if !was_ending && !(bad_utf8 && was_first) {
+        assert_eq!(unsafe { DRIVER_CALLS }, 1);
+    } else {
+        assert_eq!(unsafe { DRIVER_CALLS }, 0);
+    }
+    kani::cover!(pos == data.len() && !was_ending && !bad_utf8);
     let terminal = match &a {
         None => true,
         Some(Err(_)) => true,
